@@ -400,6 +400,22 @@ def classify(case, impl, model):
                 if len(sp) > 1:
                     return "P", ("registrants of %r with different type / label-name lists %s were all given the metric: the label "
                                  "schema is positional, distinct label tuples now share series: %s" % (name, sorted(sp), o))
+    if case.startswith(("conc", "rconc")) and case.split()[1] == "h":
+        # histogram sum / buckets (C20_hist_buckets_sum_to_count, C20_hist_sum_per_tuple_conservation): when nothing was
+        # dropped and no series was unregistered, the sums shown add up to the observed values
+        t = case.split()
+        emitted = sum(int(x.split(":")[-1]) for p in t[6:] for x in p.split("/") if x[:2] in ("e:", "a:"))
+        for o in bad:
+            f = dict(x.split("=", 1) for x in o.split(";") if "=" in x)
+            vals = [e.rsplit(":", 1)[1] for e in f.get("m", "").split("+") if e]
+            for v in vals:
+                c_, s_, b_ = v.split("/")
+                if sum(int(x) for x in b_.split("_")) != int(c_):
+                    return "P", "histogram series with bucket counters not adding up to its count: %s" % o
+            retired = any(re.fullmatch(r"[so][-\d/_]+", r) for k, v in f.items() if k == "S" or re.fullmatch(r"T\d+", k) for r in v.split("."))
+            if f.get("d") == f.get("u") == f.get("s") == "0" and not retired and sum(int(v.split("/")[1]) for v in vals) != emitted:
+                return "P", ("histogram sums shown (%d) differ from the sum of the observed values (%d) although nothing was dropped: "
+                             "an observation was lost from the sum: %s" % (sum(int(v.split("/")[1]) for v in vals), emitted, o))
     for o in bad:
         m = obs_monitor(cap, o)
         if m:
@@ -476,7 +492,7 @@ def describe(case, impl, model):
 
 def distribution(cases, impl):
     d = {"seq": 0, "conc": 0, "rconc": 0, "reg": 0, "rreg": 0, "reg_results": {}, "conc_by_kind": {"c": 0, "g": 0, "h": 0},
-         "conc_noise_cases": 0, "conc_two_label_cases": 0, "kind": {"c": 0, "g": 0, "h": 0}, "cap": {}, "ops": {}, "seq_tombstones": 0,
+         "conc_noise_cases": 0, "conc_two_label_cases": 0, "conc_hist_distinct_sums": 0, "conc_hist_observations": 0, "kind": {"c": 0, "g": 0, "h": 0}, "cap": {}, "ops": {}, "seq_tombstones": 0,
          "seq_unregister_true": 0, "seq_panics": 0, "seq_collision_cases": 0, "conc_distinct_observations": 0,
          "conc_cases_with_violating_observation": 0, "conc_violation_classes": {},
          "conc_cases_with_several_observations": 0}
@@ -514,6 +530,9 @@ def distribution(cases, impl):
             d["conc_by_kind"][t[1]] += 1
             d["conc_noise_cases"] += t[5] == "1"
             d["conc_two_label_cases"] += t[3] == "2"
+            if t[1] == "h":
+                d["conc_hist_observations"] += len(obs)
+                d["conc_hist_distinct_sums"] += len(set(re.findall(r":\d+/(-?\d+)/", " ".join(obs))))
             d["conc_distinct_observations"] += len(obs)
             d["conc_cases_with_several_observations"] += len(obs) >= 2      # real overlap happened
             cls = set()
